@@ -30,6 +30,8 @@ fn command_code(c: v2::Command) -> u8 {
     match c {
         v2::Command::Local => 0,
         v2::Command::Proxy => 1,
+        #[allow(unreachable_patterns)]
+        _ => 255,
     }
 }
 
@@ -38,6 +40,8 @@ fn transport_code(p: v2::Protocol) -> u8 {
         v2::Protocol::Unspecified => 0,
         v2::Protocol::Stream => 1,
         v2::Protocol::Datagram => 2,
+        #[allow(unreachable_patterns)]
+        _ => 255,
     }
 }
 
@@ -47,6 +51,8 @@ pub fn family_code(a: &v2::Addresses) -> u8 {
         v2::Addresses::IPv4(_) => 1,
         v2::Addresses::IPv6(_) => 2,
         v2::Addresses::Unix(_) => 3,
+        #[allow(unreachable_patterns)]
+        _ => 255,
     }
 }
 
@@ -56,6 +62,8 @@ pub fn family_enum_code(f: v2::AddressFamily) -> u8 {
         v2::AddressFamily::IPv4 => 1,
         v2::AddressFamily::IPv6 => 2,
         v2::AddressFamily::Unix => 3,
+        #[allow(unreachable_patterns)]
+        _ => 255,
     }
 }
 
